@@ -9,6 +9,7 @@ import (
 
 	"verif/harness/core"
 	"verif/harness/docs"
+	"verif/harness/gen"
 	"verif/harness/jv"
 	"verif/harness/model"
 	"verif/harness/sgen"
@@ -23,6 +24,72 @@ func structuralProfile(c *core.Ctx) *sgen.Profile {
 		PConstraint: 0.3, PNullable: 0.25, PRequired: 0.5, PFormat: 0.2, PAdditional: 0.25,
 		Avoid: c.Avoid, Excluded: c.ExcludedMap(), Sat: docs.Satisfiable,
 	}
+}
+
+// capitalizationPool: --capitalization values, among them words that do not
+// start with an upper-case letter (the field must stay exported).
+var capitalizationPool = []string{"ID", "URL", "HTTP", "gRPC", "iOS", "mTLS", "eBPF", "API"}
+
+// drawDecodeOptions draws the options that must not change which documents
+// decode and how (C02-C04 run under them): the root type keeps its
+// file-derived name. With capitalizations, root properties whose names start
+// with, contain or equal the words are added.
+func drawDecodeOptions(t *rapid.T, c *core.Ctx, f *model.File) gen.Config {
+	cfg := baseConfig()
+	cfg.ExtraImports = rapid.IntRange(0, 2).Draw(t, "optExtra") == 0
+	cfg.MinSizedInts = rapid.IntRange(0, 3).Draw(t, "optMinSized") == 0
+	if cfg.MinSizedInts {
+		// open C15 findings about what the flag does to typed integer enums and to
+		// constrained integer array items
+		bad := ""
+		visit := func(n *model.Node) {
+			if n.Kind == model.KEnum && n.EnumType == "integer" {
+				bad = "enums.typed_integer_min_sized"
+			}
+			if n.Kind == model.KArray && n.Items != nil && n.Items.Kind == model.KInteger && (n.Items.Maximum != nil || n.Items.ExclMax != nil) {
+				bad = "minsized.uint8_array_items"
+			}
+		}
+		model.Walk(f.Root, visit)
+		for _, d := range f.Defs {
+			model.Walk(d.Node, visit)
+		}
+		if bad != "" && c.Avoid(bad) {
+			c.ExcludedMap()[bad]++
+			cfg.MinSizedInts = false
+		}
+	}
+	if rapid.IntRange(0, 3).Draw(t, "optTags") == 0 {
+		cfg.Tags = rapid.SampledFrom([][]string{{"json"}, {"json", "yaml"}, {"json", "toml", "xml"}, {"yaml", "json", "mapstructure"}}).Draw(t, "tags")
+	}
+	if rapid.IntRange(0, 2).Draw(t, "optCaps") == 0 && f.Root.Kind == model.KObject {
+		n := rapid.IntRange(1, 3).Draw(t, "ncaps")
+		cfg.Capitalizations = rapid.Permutation(capitalizationPool).Draw(t, "caps")[:n]
+		have := map[string]bool{}
+		for _, p := range f.Root.Props {
+			have[strings.ToLower(strings.ReplaceAll(p.Name, "_", ""))] = true
+		}
+		for i, w := range cfg.Capitalizations {
+			lw := strings.ToLower(w)
+			name := rapid.SampledFrom([]string{lw + "Port", w, lw, "my_" + lw, lw + "_" + lw, "the" + strings.ToUpper(lw[:1]) + lw[1:] + "Value"}).Draw(t, fmt.Sprintf("capname%d", i))
+			k := strings.ToLower(strings.ReplaceAll(name, "_", ""))
+			if have[k] {
+				continue
+			}
+			have[k] = true
+			kind := rapid.SampledFrom([]model.Kind{model.KInteger, model.KString, model.KBoolean}).Draw(t, fmt.Sprintf("capkind%d", i))
+			node := &model.Node{Kind: kind}
+			if rapid.Bool().Draw(t, fmt.Sprintf("capobj%d", i)) {
+				node = &model.Node{Kind: model.KObject, Props: []model.Prop{{Name: lw + "Inner", Node: node}}, Required: []string{lw + "Inner"}}
+			}
+			f.Root.Props = append(f.Root.Props, model.Prop{Name: name, Node: node})
+			if rapid.Bool().Draw(t, fmt.Sprintf("capreq%d", i)) {
+				f.Root.Required = append(f.Root.Required, name)
+			}
+			c.Count("shape.capitalized_property")
+		}
+	}
+	return cfg
 }
 
 func genStructural(rt *rapid.T, c *core.Ctx, prof *sgen.Profile) *model.File {
@@ -50,7 +117,16 @@ func TestC04(t *testing.T) {
 		NTValid: func(v jv.V) bool { return true }}
 	runProperty(c, "run", c.N(300, 8000), 0, func(rt *rapid.T) *RunCase {
 		f := genStructural(rt, c, prof)
-		cs := caseOf(baseConfig(), []string{f.RelPath}, f)
+		files := []*model.File{f}
+		switch rapid.IntRange(0, 5).Draw(rt, "multifile") {
+		case 0:
+			files = append(files, addSameLocalRefSibling(rt, c, f))
+		case 1:
+			files = append(files, addSameBasenameFiles(rt, c, f)...)
+		case 2:
+			addCollidingDefs(rt, c, f, "required")
+		}
+		cs := caseOf(drawDecodeOptions(rt, c, f), []string{f.RelPath}, files...)
 		jobs := buildJobs(rt, c, f.Root, progRoot, plan, o, cs)
 		for _, j := range jobs {
 			if j.Expect == "reject" {
@@ -99,11 +175,14 @@ func TestC03(t *testing.T) {
 		if rapid.IntRange(0, 2).Draw(rt, "nullarrays") == 0 {
 			addNullItemArrays(rt, c, f)
 		}
+		if rapid.IntRange(0, 3).Draw(rt, "nullableallof") == 0 {
+			addNullableObjectAllOf(rt, c, f)
+		}
 		files := []*model.File{f}
 		if rapid.IntRange(0, 3).Draw(rt, "samelocalref") == 0 {
 			files = append(files, addSameLocalRefSibling(rt, c, f))
 		}
-		cs := caseOf(baseConfig(), []string{f.RelPath}, files...)
+		cs := caseOf(drawDecodeOptions(rt, c, f), []string{f.RelPath}, files...)
 		jobs := buildJobs(rt, c, f.Root, progRoot, plan, o, cs)
 		// explicit nulls at every nullable position of an all-present document
 		oo := *o
@@ -127,6 +206,65 @@ func TestC03(t *testing.T) {
 		c.Sample(sampleOf(cs, jobs))
 		return &RunCase{Case: cs, Jobs: jobs, Model: modelIfSingle(cs, f)}
 	}, stdJudge)
+}
+
+// addSameBasenameFiles: two whole-file references to files with the same base
+// name in different directories (both root types want the same Go name) whose
+// required sets differ; each reference must keep its own file's rules, as a
+// property and as array items.
+func addSameBasenameFiles(t *rapid.T, c *core.Ctx, f *model.File) []*model.File {
+	mk := func(dir string) *model.File {
+		props := []model.Prop{
+			{Name: "street", Node: &model.Node{Kind: model.KString}},
+			{Name: "zip", Node: &model.Node{Kind: model.KString}},
+			{Name: "phone", Node: &model.Node{Kind: model.KString}},
+		}
+		var req []string
+		for _, p := range props {
+			if rapid.Bool().Draw(t, "sbreq"+dir+p.Name) {
+				req = append(req, p.Name)
+			}
+		}
+		return &model.File{RelPath: dir + "/address.json", ID: "https://example.com/" + dir + "/address",
+			Root: &model.Node{Kind: model.KObject, Props: props, Required: req}}
+	}
+	a, b := mk("billing"), mk("shipping")
+	f.Root.Props = append(f.Root.Props,
+		model.Prop{Name: "zbilling", Node: &model.Node{Kind: model.KRef, Ref: "billing/address.json", Target: a.Root}},
+		model.Prop{Name: "zshipping", Node: &model.Node{Kind: model.KRef, Ref: "shipping/address.json", Target: b.Root}},
+		model.Prop{Name: "zformer", Node: &model.Node{Kind: model.KArray, Items: &model.Node{Kind: model.KRef, Ref: "shipping/address.json", Target: b.Root}}})
+	f.Root.Required = append(f.Root.Required, "zbilling", "zshipping", "zformer")
+	c.Count("shape.same_basename_files")
+	return []*model.File{a, b}
+}
+
+// addNullableObjectAllOf adds a required property typed by an allOf in which one
+// member is a nullable object (type list in either order, inline or by
+// reference) next to a plain object member, in either member order: the typed
+// properties below it must still reject other JSON types.
+func addNullableObjectAllOf(t *rapid.T, c *core.Ctx, f *model.File) {
+	if f.Root.Kind != model.KObject {
+		return
+	}
+	nobj := &model.Node{Kind: model.KObject, Nullable: true, NullFirst: rapid.Bool().Draw(t, "naoNullFirst"), Props: []model.Prop{
+		{Name: "zs", Node: &model.Node{Kind: model.KString}},
+		{Name: "zn", Node: &model.Node{Kind: model.KInteger}},
+		{Name: "zb", Node: &model.Node{Kind: model.KBoolean}},
+		{Name: "za", Node: &model.Node{Kind: model.KArray, Items: &model.Node{Kind: model.KString}}},
+	}, Required: []string{"zs"}}
+	first := nobj
+	if rapid.Bool().Draw(t, "naoByRef") {
+		f.Defs = append(f.Defs, model.Def{Name: "ZNullableBase", Node: nobj})
+		first = &model.Node{Kind: model.KRef, Ref: "#/$defs/ZNullableBase", Target: nobj}
+	}
+	other := &model.Node{Kind: model.KObject, Props: []model.Prop{{Name: "zextra", Node: &model.Node{Kind: model.KBoolean}}}}
+	br := []*model.Node{first, other}
+	if rapid.Bool().Draw(t, "naoSwap") {
+		br = []*model.Node{other, first}
+	}
+	f.Root.Props = append(f.Root.Props, model.Prop{Name: "znallof", Node: &model.Node{Kind: model.KAllOf, Branches: br}})
+	f.Root.Required = append(f.Root.Required, "znallof")
+	c.Count("shape.nullable_object_in_allof")
 }
 
 // addNullItemArrays adds required arrays (nesting 1-4, at least one element per
@@ -163,7 +301,8 @@ func TestC02(t *testing.T) {
 	plan := &docPlan{NValid: 16, Remarshal: true, NTValid: func(v jv.V) bool { return true }}
 	runProperty(c, "run", c.N(250, 6000), 0, func(rt *rapid.T) *RunCase {
 		f := genStructural(rt, c, prof)
-		cs := caseOf(baseConfig(), []string{f.RelPath}, f)
+		addOptionalDefaults(rt, c, f, 0.15, o)
+		cs := caseOf(drawDecodeOptions(rt, c, f), []string{f.RelPath}, f)
 		jobs := buildJobs(rt, c, f.Root, progRoot, plan, o, cs)
 		c.Sample(sampleOf(cs, jobs))
 		return &RunCase{Case: cs, Jobs: jobs, Model: modelIfSingle(cs, f)}
@@ -212,7 +351,7 @@ func addSameLocalRefSibling(t *rapid.T, c *core.Ctx, f *model.File) *model.File 
 		base := &model.Node{Kind: model.KObject, Props: []model.Prop{
 			{Name: "id", Node: &model.Node{Kind: k}},
 			{Name: "tags", Node: &model.Node{Kind: model.KArray, Items: &model.Node{Kind: ak}}},
-		}, Required: []string{"id"}}
+		}, Required: rapid.SampledFrom([][]string{{"id"}, {"id"}, {"id", "tags"}, {"tags"}, {}}).Draw(t, "siblingreq"+extra)}
 		comp := &model.Node{Kind: model.KAllOf, Branches: []*model.Node{
 			{Kind: model.KRef, Ref: "#/$defs/Base", Target: base},
 			{Kind: model.KObject, Props: []model.Prop{{Name: extra, Node: &model.Node{Kind: model.KBoolean}}}},
